@@ -227,6 +227,9 @@ func errLookedAt(p *Prog, fi *FuncInfo) map[string]string {
 							}
 						}
 						if call, ok := x.(*ast.CallExpr); ok {
+							if fn := calleeFn(info, call); fn != nil && p.newHelpers[fn] {
+								return true // a function the reference tree did not have: what it does with the value is read in its body
+							}
 							for _, a := range call.Args {
 								if objOf(info, a) == o {
 									hit = true
